@@ -179,8 +179,10 @@ func mkInput(n int, store *sx.Node, sched []*sx.Node) string {
 	return sx.L(sx.I(n), store, sx.L(sched...)).String()
 }
 
-// interleavings enumerates all merges of the n two-step programs [r c, w c].
-func interleavings(n int) [][]*sx.Node {
+// interleavings enumerates all merges of n programs [r c, w c, … (ws times)]. ws = 1 is the real
+// protocol; ws > 1 adds `w` steps that are no-ops for it but let a variant that sends more
+// requests per call (re-read, retry) be driven through every interleaving as well.
+func interleavingsW(n, ws int) [][]*sx.Node {
 	var out [][]*sx.Node
 	pc := make([]int, n)
 	var cur []*sx.Node
@@ -188,10 +190,10 @@ func interleavings(n int) [][]*sx.Node {
 	rec = func() {
 		done := true
 		for c := 0; c < n; c++ {
-			if pc[c] < 2 {
+			if pc[c] < 1+ws {
 				done = false
 				kind := "r"
-				if pc[c] == 1 {
+				if pc[c] >= 1 {
 					kind = "w"
 				}
 				pc[c]++
@@ -207,6 +209,18 @@ func interleavings(n int) [][]*sx.Node {
 	}
 	rec()
 	return out
+}
+
+func interleavings(n int) [][]*sx.Node { return interleavingsW(n, 1) }
+
+func longPrograms(n, ws int, stores []*sx.Node, tag string) []fw.Case {
+	var cs []fw.Case
+	for _, st := range stores {
+		for _, s := range interleavingsW(n, ws) {
+			cs = append(cs, fw.Case{Input: mkInput(n, st, s), Tags: []string{tag}})
+		}
+	}
+	return cs
 }
 
 func events(n int) []*sx.Node {
@@ -384,6 +398,8 @@ func generate(tier string, r *rng.R) []fw.Case {
 	cs = append(cs, exhaustive(2, 1, exhStores, "exh:n=2,+1ev")...)
 	cs = append(cs, exhaustive(3, 1, exhStores, "exh:n=3,+1ev")...)
 	cs = append(cs, exhaustive(4, 0, exhStores, "exh:n=4")...)
+	cs = append(cs, longPrograms(2, 3, exhStores, "exh:n=2,r+3w")...)
+	cs = append(cs, longPrograms(3, 2, exhStores[1:], "exh:n=3,r+2w")...)
 	cs = append(cs, exhaustive(2, 1, wrapStores, "exh:n=2,+1ev,wrap-region")...)
 	cs = append(cs, exhaustive(3, 0, wrapStores, "exh:n=3,wrap-region")...)
 	nRandom, maxCallers, maxLen := 6000, 8, 30
@@ -471,7 +487,8 @@ func init() {
 			"in-process Consul KV HTTP simulator that parks every request and releases them in schedule order. EXHAUSTIVE: every " +
 			"interleaving of the read/CAS steps of n complete calls with k extra events (foreign put lower/equal/higher/junk/empty, delete, " +
 			"crash c, HTTP-500 for c) inserted at every position, from an absent key and from \"41\": (n,k) = (1,<=2) (2,<=2) (3,<=1) (4,0); " +
-			"thorough adds (3,2) (4,1) (5,0) from \"41\"; (2,<=1) and (3,0) at 2^32-2 and 2^32-1. RANDOM: 6000 (thorough 100000) schedules, " +
+			"thorough adds (3,2) (4,1) (5,0) from \"41\"; (2,<=1) and (3,0) at 2^32-2 and 2^32-1; n=2 with 3 and n=3 with 2 `w` steps per caller " +
+			"(no-ops for the real protocol; they drive variants that send more requests per call). RANDOM: 6000 (thorough 100000) schedules, " +
 			"1..8 (12) callers, <=30 (60) steps, foreign writes (65% non-lowering, 20% lowering, 15% junk), deletes, crashes, HTTP failures, " +
 			"no-op steps, initial key absent/number/near-wrap/junk. non-trivial = >=2 calls launched, >=1 number handed out and the calls " +
 			"were disturbed (refused CAS, error, dead/pending caller or foreign write/delete); distinct by input text",
